@@ -17,12 +17,19 @@ SEARCH_TRUST = [
 ]
 
 
-def run_search_prop(out, prop, judge, tier, model_ok=True, correspondence=True):
+def run_search_prop(out, prop, judge, tier, model_ok=True, correspondence=True, deepen=False):
   res = se.get_results(tier, model_ok=model_ok)
   if correspondence and model_ok:
     se.report_correspondence(out, res)
   se.describe(out, res)
   judge(out, res)
+  if (out.mismatches or deepen) and not out.violations:
+    # a proof obligation or the correspondence no longer checks: look harder for a concrete failing input, in the
+    # neighbourhood of the disagreeing instances (same generator themes), judged by the independent oracle only
+    themes = sorted({m['case']['inst'].get('theme') for m in out.mismatches if m.get('case') and m['case'].get('inst')} - {None}) or None
+    extra = se.extra_instances(themes, 240, salt=prop)
+    judge(out, {'recs': extra, 'tier': tier, 'model_ok': False})
+    out.extra['failing_input_search_instances'] = len(extra)
   shown = 0
   for r in res['recs']:
     if r.get('tables') and r['tables']['n'] >= 3 and (r['exh'].get('result') or r['greedy'].get('result')) and shown < 3:
